@@ -427,6 +427,16 @@ def run(tier, seed):
     # ... on both engines identically" — the call must reach the host function on both engines
     dist["aux_observations"] = {a["aux"]: a["engines"] for a in aux}
     for a in aux:
+        if a["aux"] == "lookup-imported-function":
+            for eng, what in a["engines"].items():
+                if not what.startswith("ok"):
+                    ck.violation("lookup-imported-function", {"kind": "lookup-imported-function", "engine": eng},
+                                 {"what": "experimental/table.LookupFunction(B, table 0, slot 0) where the slot holds B's imported function A.f1", "engines": a["engines"]})
+        if a["aux"] == "start-section-names-imported-host-function":
+            for eng, what in a["engines"].items():
+                if not what.startswith("ok"):
+                    ck.violation("reexported-host-function-direct-call", {"kind": "reexported-host-function-direct-call", "engine": eng, },
+                                 {"module": "(module (import \"env\" \"h0\" (func)) (start 0))", "engines": a["engines"]})
         if a["aux"] == "reexported-host-function-called-from-go":
             for eng, what in a["engines"].items():
                 if not what.startswith("ok"):
